@@ -61,6 +61,10 @@ type C16Plan struct {
 	OwnerMTU  int         `json:"owner_mtu"`  // owner receives at most this (0 = default)
 	ExtraMods int         `json:"extra_mods"` // device modules without owner counterpart
 	NameLen   int         `json:"name_len"`
+	// Uniform: the extra module names all have exactly NameLen characters, so
+	// that a sweep of the owner's MTU walks the module-list chunks through every
+	// fill level (exactly full, one byte short, one byte over) at a chosen count.
+	Uniform bool `json:"uniform,omitempty"`
 	Modules   []C16Module `json:"modules"`
 	Sched     SchedPolicy `json:"sched"`
 }
@@ -162,6 +166,18 @@ func (p *c16) Plan(tier string, seed uint64, i int) any {
 			mod.Rounds = append(mod.Rounds, round)
 		}
 		pl.Modules = append(pl.Modules, mod)
+	}
+	if j := i / 9; i%9 == 8 && j < 162 {
+		// module-list boundary sweep: chunks that close at 22..24 names (CBOR
+		// array head grows at 24 elements) and at 254..256 names (head grows
+		// again), for every fill level of the message
+		pl.Modules, pl.Uniform, pl.DevMTU, pl.Sql = nil, true, 1300, false
+		if j < 87 {
+			pl.NameLen, pl.ExtraMods, pl.OwnerMTU = 8, 60, 198+j
+		} else {
+			pl.NameLen, pl.ExtraMods, pl.OwnerMTU = 4, 300, 1270+(j-87)
+		}
+		return pl
 	}
 	if i%25 == 7 {
 		pl.Modules = []C16Module{{Name: "fdo.simrogue", OnDevice: true, SkipActive: true, Rounds: []C16Round{{Send: []C16Msg{{Size: 10 + r.IntN(300)}}}}}}
@@ -540,6 +556,9 @@ func (p *c16) Exec(env *Env, plan any) {
 	}
 	for i := 0; i < pl.ExtraMods; i++ {
 		name := fmt.Sprintf("x%d.%s", i, strings.Repeat("n", (pl.NameLen+i)%41))
+		if pl.Uniform {
+			name = fmt.Sprintf("%0*d", pl.NameLen, i)
+		}
 		devMods[name] = &c16Device{spec: C16Module{Name: name}, log: lg, k: k}
 		devNames = append(devNames, name)
 	}
